@@ -213,6 +213,74 @@ def adversary_job(args):
     return r
 
 
+def rowmiss_job(args):
+    """Directed adversary on the command chooser: ports A and B stream one read per row (row misses, auto-precharge) to banks 0
+    and 1, so that activates keep arriving inside each other's tRRD windows; the victim V reads closed rows of bank 2.  Every victim
+    latency must stay within Bound(cfg)."""
+    from migen import run_simulation
+    seed, k = args
+    rnd = random.Random("c05-rowmiss-%d-%d" % (seed, k))
+    while True:
+        cfg = corelib.rand_core_cfg(rnd)
+        if cfg["nphases"] == 2:
+            break
+    cfg["nmasters"] = 3; cfg["bba"] = 0; cfg["bankbits"] = 2
+    cfg["ctrl"].update(read_time=8, write_time=8, cmd_buffer_depth=rnd.choice([2, 4, 8]), refresh_postponing=1,
+                       with_refresh=bool(k % 2), with_auto_precharge=True)
+    cfg["timing"].update(tRFC=4, tFAW=None, tRC=rnd.choice([6, 7, 8]), tRAS=4, tRP=2, tRCD=2, tRRD=rnd.choice([2, 3, 4, 4]), tZQCS=None, tREFI=900)
+    if k % 4 < 2:
+        # a row cycle of the streams (tRC) that lines up with the activate-to-activate window
+        cfg["timing"].update(tRRD=4, tRC=7, tCCD=1, tWR=2, tWTR=2)
+        cfg["ctrl"].update(cmd_buffer_depth=rnd.choice([2, 4]), read_time=32, write_time=16)
+        cfg.update(cl=3, cwl=2, rdphase=0, wrphase=1, read_latency=5, write_latency=1, rowbits=4, colbits=5, align=2, memtype="DDR2")
+    B = latency_bound(cfg)
+    N = max(2 * B, 700)
+    dut = corelib.build_core(cfg)
+    A, Bp, V = dut.ports
+    split = cfg["colbits"] - cfg["align"]
+    bb = cfg["bankbits"]
+    nrows = 1 << cfg["rowbits"]
+    r = Result()
+    res = dict(worst=0, viol=None, served=0)
+
+    def gen():
+        for p in (A, Bp, V):
+            yield p.rdata.ready.eq(1)
+        ka = kb = 0
+        v_state = "idle"; v_t0 = 0; gap = k // 2; vrow = 0
+        for t in range(N):
+            yield A.cmd.valid.eq(1); yield A.cmd.we.eq(0); yield A.cmd.addr.eq((0 << split) | ((ka % nrows) << (split + bb)))
+            yield Bp.cmd.valid.eq(1); yield Bp.cmd.we.eq(0); yield Bp.cmd.addr.eq((1 << split) | ((kb % nrows) << (split + bb)))
+            if v_state == "idle" and gap == 0:
+                v_state = "offer"; v_t0 = t; vrow += 1
+                yield V.cmd.addr.eq((2 << split) | ((vrow % nrows) << (split + bb)))
+            yield V.cmd.valid.eq(1 if v_state == "offer" else 0); yield V.cmd.we.eq(0)
+            yield
+            if (yield A.cmd.ready):
+                ka += 1
+            if (yield Bp.cmd.ready):
+                kb += 1
+            if v_state == "offer" and (yield V.cmd.ready):
+                res["worst"] = max(res["worst"], t - v_t0); v_state = "wait"; v_t0 = t
+            elif v_state == "wait" and (yield V.rdata.valid):
+                res["worst"] = max(res["worst"], t - v_t0); v_state = "idle"; gap = rnd.randrange(0, 9); res["served"] += 1
+            elif v_state == "idle" and gap:
+                gap -= 1
+            if v_state in ("offer", "wait") and t - v_t0 > B and res["viol"] is None:
+                res["viol"] = (v_state, t, t - v_t0)
+    run_simulation(dut, gen())
+    r.evaluations += N
+    r.distinct.add(("rowmiss", seed, k))
+    r.coverage["adversary_scenarios"] = 1
+    r.coverage["adversary_worst_latency"] = {"rowmiss-pair-vs-third-bank": res["worst"]}
+    if res["viol"]:
+        st, t, w = res["viol"]
+        r.violations.append(dict(signature="c05-adversary", what="%s 1:%d, two row-miss read streams (banks 0, 1; tRRD=%d tRC=%d) vs reads of bank 2: the victim's command has been %s for %d cycles at cycle %d (Bound(cfg) = %d); victim accesses served so far: %d"
+                                 % (cfg["memtype"], cfg["nphases"], cfg["timing"]["tRRD"], cfg["timing"]["tRC"], "offered without being accepted" if st == "offer" else "accepted without receiving its read data",
+                                    w, t, B, res["served"]), replay=dict(config=cfg, scenario="rowmiss", seed=seed, k=k)))
+    return r
+
+
 def handover_job(args):
     """Directed hand-over scenario: two or three ports take turns on ONE bank with single commands (each port offers a command,
     waits for its data strobe, idles 0..3 cycles, offers the next), so that the bank's arbiter is handed from port to port
@@ -296,6 +364,8 @@ def run(prop, tier, seed):
             jobs.insert(0, (adversary_job, (seed, k)))
         for k in range(8 if tier == "quick" else 24):
             jobs.insert(0, (handover_job, (seed, k)))
+        for k in range(8 if tier == "quick" else 32):
+            jobs.insert(0, (rowmiss_job, (seed, k)))
     for r in core.pmap(_dispatch, jobs):
         res.merge(r)
     return res
